@@ -88,8 +88,57 @@ def guard_origin_ok(facts, b, c, k_guard, k_recv):
     return ok, "; ".join(why)
 
 
+# operations that can make items disappear (or merge) between the source and the insert
+DROPPING = {
+    "Vec": ("dedup", "dedup_by", "dedup_by_key", "retain", "retain_mut", "truncate", "pop", "drain", "clear", "swap_remove", "remove",
+            "split_off", "extract_if", "pop_if"),
+    "VecDeque": ("retain", "retain_mut", "truncate", "pop_front", "pop_back", "drain", "clear", "swap_remove_back", "swap_remove_front",
+                 "remove", "split_off"),
+    "Iterator": ("filter", "filter_map", "take", "skip", "step_by", "take_while", "skip_while", "map_while", "find", "find_map", "nth",
+                 "last", "zip", "min", "max", "min_by", "max_by", "min_by_key", "max_by_key", "reduce", "position", "scan"),
+    "ParallelIterator": ("filter", "filter_map", "take_any", "skip_any", "take_any_while", "skip_any_while", "find_any", "find_first",
+                         "find_last", "find_map_any", "find_map_first", "find_map_last", "while_some", "reduce", "reduce_with",
+                         "min", "max", "min_by", "max_by", "min_by_key", "max_by_key"),
+    "IndexedParallelIterator": ("take", "skip", "step_by", "zip", "interleave_shortest", "position_any", "position_first", "positions"),
+}
+
+
+def dropping_op(c):
+    d = strip_generics((c.callee or {}).get("def") or "")
+    parts = d.rsplit("::", 2)
+    if len(parts) < 2:
+        return None
+    owner, name = parts[-2], parts[-1]
+    if name in DROPPING.get(owner, ()):
+        return "%s::%s" % (owner, name)
+    return None
+
+
+def rule_v5(ctx, facts, files):
+    n = 0
+    for b in facts.bodies:
+        if not file_of(b).endswith(files):
+            continue
+        n += 1
+        bad = [(c, dropping_op(c)) for c in b.calls if not b.is_cleanup(c.b) and dropping_op(c)]
+        if bad:
+            c, d = bad[0]
+            ctx.inst("V5", b, "item-dropping operation %s" % d, c.span, False,
+                     "%s is applied on the way from the input to the map: items of the input can be dropped or merged before they are inserted, so "
+                     "the result differs from inserting every item sequentially" % d)
+        else:
+            ctx.inst("V5", b, "no item-dropping operation", b.span, True, "no filtering / deduplicating / truncating adaptor or container operation")
+    return n
+
+
 def run(ctx, facts):
     feats = set(facts.features)
+    ctx.rule("V5", "between the input (parallel iterator / deserialiser) and the insert nothing can drop or merge items: no filtering, "
+                   "deduplicating, truncating or searching adaptor, no removing container operation in the rayon and serde entry points")
+    files = tuple(f for f, k in (("rayon_impls.rs", "rayon"), ("serde_impls.rs", "serde")) if k in feats)
+    if files:
+        ctx.set_floor("V5", 8 if "rayon" in feats else 4, "bodies and closures of rayon_impls.rs / serde_impls.rs")
+        rule_v5(ctx, facts, files)
     ctx.rule("V1", "no panic-family call reachable after the first pull from the deserialiser in Visitor/Deserialize bodies")
     ctx.rule("V2", "deserialisers call only exported flurry functions and pass the new map's own guard")
     ctx.rule("V3", "rayon bodies delegate only to exported functions / sibling impls; guard and insert closures capture the same map")
